@@ -7,6 +7,9 @@ import (
 	"strings"
 	"time"
 
+	"github.com/fiorix/go-diameter/diam"
+	"github.com/fiorix/go-diameter/diam/dict"
+	"github.com/fiorix/go-diameter/diam/sm"
 	"verif.local/vs"
 )
 
@@ -120,7 +123,53 @@ func c18SilentScenario() schedScenario {
 	}
 }
 
+// c18ForeignPeerScenario: the account-balance peer completes the capabilities exchange but does not know the charging
+// application (it advertises the applications of go-diameter's stock dictionary only) and never answers a credit-control
+// request. Every exchange with it ends by time-out; nothing may be left behind.
+func c18ForeignPeerScenario() schedScenario {
+	return schedScenario{
+		Cfg: WorldCfg{Accounts: []Account{{supiA, 1, "100000", "1"}}, NoABMF: true, HorizonS: 900},
+		Body: func(w *World, sc *schedCtx) {
+			sc.Go("T1", func() {
+				cur := dict.Default
+				dict.ResetDefault() // the stock dictionary: base protocol and the standard applications
+				mux := sm.New(&sm.Settings{OriginHost: "foreign-abmf", OriginRealm: "go-diameter", VendorID: 13, ProductName: "go-diameter", FirmwareRevision: 1})
+				dict.Default = cur
+				go diam.ListenAndServeTLS("127.0.0.1:3869", certPem, certKey, mux, nil)
+				vs.Quiesce()
+				h := w.ExecOps([]string{supiA}, []Op{mkCreate(0, "smf1")}, 1, false)
+				if len(h.Sess) == 0 {
+					return
+				}
+				ref := h.Sess[0].Ref
+				upd := func(seq int32) int {
+					op := Op{K: "update", S: 0, MUs: []MU{{RG: 1, Req: 50, Conts: []Cont{{Vol: 0, Seq: seq}}}}, Seq: seq}
+					return w.Do("POST", ccBase+"/chargingdata/"+ref+"/update", op.Request(supiA), nil).Code
+				}
+				c0 := upd(1)
+				time.Sleep(60 * time.Second)
+				vs.Quiesce()
+				base := w.Snapshot(true)
+				sc.Free()
+				c1 := upd(2)
+				c2 := upd(3)
+				time.Sleep(60 * time.Second)
+				vs.Quiesce()
+				sc.Stop()
+				after := w.Snapshot(true)
+				sc.Results["codes"] = []int{c0, c1, c2}
+				sc.Results["base"] = [2]int{base.Open + base.Half, base.Gor}
+				sc.Results["after"] = [2]int{after.Open + after.Half, after.Gor}
+				sc.Results["dials"] = after.Dials
+			})
+		},
+		Observe: c18SlowScenario(0)().Observe,
+		Elig:    func(def, alt string) bool { return false },
+	}
+}
+
 func init() {
+	schedScenarios["c18-foreign-peer"] = c18ForeignPeerScenario
 	schedScenarios["c18-slow-3s"] = c18SlowScenario(3000)
 	schedScenarios["c18-slow-6s"] = c18SlowScenario(6000)
 	schedScenarios["c18-silent-peer"] = c18SilentScenario
@@ -128,7 +177,7 @@ func init() {
 
 func c18SlowPeers(rep *Report, pool *Pool) (per []map[string]any, execs int, exhaustive bool) {
 	exhaustive = true
-	for _, name := range []string{"c18-slow-3s", "c18-slow-6s", "c18-silent-peer"} {
+	for _, name := range []string{"c18-slow-3s", "c18-slow-6s", "c18-silent-peer", "c18-foreign-peer"} {
 		bound, capExecs := 1, 3000
 		if rep.Tier == "thorough" {
 			bound, capExecs = 2, 40000
